@@ -1,6 +1,8 @@
 """C15 — session automaton: exhaustive single steps + random event sequences"""
 from .common import ident
 
+from . import auto
+
 PROP = 'C15'
 PREDICATE = 'C15'
 LEAN_TARGETS = ['LLTD.Props.C15']
@@ -40,6 +42,9 @@ def cases(rng, tier, X):
             else:
                 ops.append('clock %d' % rng.choice([0, 500, 999, 1000, 1001, 2000, 2001, 3000, rng.randint(0, 5000)]))
         out.append(('seq%d' % k, ops))
+    # universal automata schedule (all public calls, missing objects, near-colliding keys, bridged frames, every deadline): this check's predicate on it
+    for k in range(60 if tier == 'quick' else 6000):
+        out.append(('au%d' % k, auto.schedule(rng)))
     return out
 
 
